@@ -96,11 +96,13 @@ class Panic(Exception):
 
 
 class Break(Exception):
-    pass
+    def __init__(self, label=None, value=None):
+        self.label, self.value = label, value
 
 
 class Continue(Exception):
-    pass
+    def __init__(self, label=None):
+        self.label = label
 
 
 class SymEval:
@@ -193,6 +195,13 @@ class SymEval:
     def ev(self, e, env):
         k = e[0]
         if k == "block":
+            if len(e) > 2 and isinstance(e[2], str):
+                try:
+                    return self.block(e, env)
+                except Break as br:
+                    if br.label != e[2]:
+                        raise
+                    return br.value if br.value is not None else UNIT
             return self.block(e, env)
         if k == "lit":
             if e[1] == "int":
@@ -550,17 +559,22 @@ class SymEval:
                             self.fail("undecided loop condition", c)
                         if not cv:
                             break
+                label = (e[3] if len(e) > 3 else None) if k == "while" else (e[2] if len(e) > 2 else None)
                 try:
                     self.block(e[2] if k == "while" else e[1], loop_env if (k == "while" and e[1][0] == "let") else env)
-                except Break:
-                    break
-                except Continue:
+                except Break as br:
+                    if br.label is not None and br.label != label:
+                        raise
+                    return br.value if br.value is not None else UNIT
+                except Continue as co:
+                    if co.label is not None and co.label != label:
+                        raise
                     continue
             return UNIT
         if k == "break":
-            raise Break()
+            raise Break(e[1] if len(e) > 1 else None, self.ev(e[2], env) if len(e) > 2 and e[2] is not None else None)
         if k == "continue":
-            raise Continue()
+            raise Continue(e[1] if len(e) > 1 else None)
         if k == "repeat":
             v = self.ev(e[1], env)
             n_ = self.ev(e[2], env)
@@ -579,11 +593,16 @@ class SymEval:
                 it_env = child(env)
                 if self.match_pat(e[1], item, it_env) is not True:
                     self.fail("for pattern", e[1])
+                label = e[4] if len(e) > 4 else None
                 try:
                     self.block(e[3], it_env)
-                except Break:
+                except Break as br:
+                    if br.label is not None and br.label != label:
+                        raise
                     break
-                except Continue:
+                except Continue as co:
+                    if co.label is not None and co.label != label:
+                        raise
                     continue
             return UNIT
         if k in ("vec", "array"):
